@@ -405,6 +405,150 @@ def rule_b(rep, cx):
     rep.check('R16.b', '%s::UnquoteError' % COOKIE, ok, 'UnquoteError is the dependency\'s own class' if ok else
               'UnquoteError is not the class secure_cookie catches', uq.mod, raised[0] if raised else uq.node)
     _quote_total(rep, cx, qf, jc)
+    _codec_pipeline(rep, cx, qf, uq, jc, PAIRS)
+
+
+# "exactly the data the application stored": as far as the shape of the two functions goes, unquote(quote(v)) is v --
+#   quote   = layout . encoder . text->bytes . dumps   applied to the value it is given, itself;
+#   unquote = loads . bytes->text . decoder            applied to the value it is given, itself, and returned as it is;
+# the serializer's loads gets no hook that rebuilds values.  (What the serializer itself does to a value -- tuples, keys
+# that are not strings -- stays declined.)  A step that is not one of these is an analysis gap, except the ones that are
+# known to lose data: a slice of the payload (truncation), a transformed value, a transformed result, a loads hook.
+LOADS_HOOKS = ('object_hook', 'object_pairs_hook', 'parse_float', 'parse_int', 'parse_constant', 'cls')
+BLANK_BYTES = (b'', b'\n', b'\r', b'\r\n', b' ', '', '\n', '\r', '\r\n', ' ')
+
+
+class _Lossy(Exception):
+    def __init__(self, why, node):
+        Exception.__init__(self, why)
+        self.why, self.node = why, node
+
+
+def _codec_pipeline(rep, cx, qf, uq, jc, pairs):
+    from ..effects import Flow
+    for fi, walk, good in ((qf, _quote_steps, 'quote() is layout(encoder(text -> bytes(dumps(value)))) of the value it is given'),
+                           (uq, _unquote_steps, 'unquote() returns loads(bytes -> text(decoder(value))) of the value it is given, as it is')):
+        ps = [p_ for p_ in fi.params() if p_ not in ('cls', 'self')]
+        rets = [r for r in returns_of(fi) if r.value is not None]
+        if len(ps) != 1 or not rets:
+            raise AnalysisError('%s: parameter / return value not found' % fi.qualname)
+        fl = Flow(fi)
+        lossy = []
+        for r in rets:
+            try:
+                walk(cx, fl, fi, jc, pairs, ps[0], r.value, r, 'result' if fi is uq else 'layout', 0)
+            except _Lossy as e:
+                lossy.append(e)
+        rep.check('R16.b', fkey(fi, 'pipeline'), not lossy, good if not lossy else lossy[0].why, fi.mod, lossy[0].node if lossy else fi.node)
+
+
+def _leaves(fl, fi, e, at, depth):
+    if depth > 24:
+        raise AnalysisError('%s: the payload pipeline is too deep to follow' % fi.qualname)
+    out = []
+    for lf in fl.leaves(e, at):
+        if lf.opaque:
+            raise AnalysisError('%s: %s is bound in a way that is not followed' % (fi.qualname, short(e, 30)))
+        out.append((lf.value, lf.stmt))
+    return out
+
+
+def _is_param(fl, v, st, param):
+    return isinstance(v, ast.Name) and v.id == param and all(d.kind == 'entry' for d in (fl.reaching(param, st) if param in fl.defs else []))
+
+
+def _plain_call(v):
+    return isinstance(v, ast.Call) and not any(isinstance(a, ast.Starred) for a in v.args) and not any(k.arg is None for k in v.keywords)
+
+
+def _quote_steps(cx, fl, fi, jc, pairs, param, e, at, stage, depth):
+    for v, st in _leaves(fl, fi, e, at, depth):
+        rec = lambda x, stage_: _quote_steps(cx, fl, fi, jc, pairs, param, x, st, stage_, depth + 1)
+        if isinstance(v, ast.Subscript) and stage != 'value':
+            raise _Lossy('quote() cuts the payload (%s): a value longer than that no longer decodes -- the dependency discards the whole cookie as '
+                         'unquotable and the next request presents an empty cookie instead of what the application stored' % short(v, 40), v)
+        if stage == 'value':
+            if not _is_param(fl, v, st, param):
+                raise _Lossy('quote() serializes %s, not the value it is given: what the endpoint reads back on the next request is not what it stored'
+                             % short(v, 40), v)
+            continue
+        call = v if _plain_call(v) else None
+        meth = call.func.attr if call is not None and isinstance(call.func, ast.Attribute) else None
+        if stage == 'layout':
+            if meth in STR_TO_STR and not call.keywords and (not call.args or (len(call.args) == 1 and cx.fold(call.args[0]) in BLANK_BYTES)):
+                rec(call.func.value, 'layout')
+            elif meth == 'join' and len(call.args) == 1 and not call.keywords and cx.fold(call.func.value) in (b'', ''):
+                inner = [x for x, _ in _leaves(fl, fi, call.args[0], st, depth + 1)]
+                if not all(_plain_call(x) and isinstance(x.func, ast.Attribute) and x.func.attr in ('splitlines', 'split') and not x.args and not x.keywords
+                           for x in inner):
+                    raise AnalysisError('%s: the pieces joined in %s are not followed' % (fi.qualname, short(v, 40)))
+                for x in inner:
+                    rec(x.func.value, 'layout')
+            elif meth == 'replace' and len(call.args) == 2 and not call.keywords and cx.fold(call.args[0]) in BLANK_BYTES[1:] and cx.fold(call.args[1]) in (b'', ''):
+                rec(call.func.value, 'layout')
+            elif call is not None and call_tail(call) in pairs and call.args:
+                rec(call.args[0], 'bytes')
+            else:
+                raise AnalysisError('%s: the step %s between the encoder and the returned payload is not followed' % (fi.qualname, short(v, 40)))
+        elif stage == 'bytes':
+            enc = _encode_step(v)
+            if enc is None:
+                raise AnalysisError('%s: what is handed to the encoder (%s) is not a text -> bytes step that is followed' % (fi.qualname, short(v, 40)))
+            rec(enc[0], 'text')
+        elif stage == 'text':
+            if meth in STR_TO_STR and not call.args and not call.keywords:
+                rec(call.func.value, 'text')
+            elif isinstance(v, ast.Call) and call_tail(v) == 'dumps' and argn(v, 'obj', 0) is not None:
+                rec(argn(v, 'obj', 0), 'value')         # (its options: see the totality obligation)
+            else:
+                raise AnalysisError('%s: the text that is encoded (%s) is not the output of the serializer' % (fi.qualname, short(v, 40)))
+
+
+def _unquote_steps(cx, fl, fi, jc, pairs, param, e, at, stage, depth):
+    for v, st in _leaves(fl, fi, e, at, depth):
+        rec = lambda x, stage_: _unquote_steps(cx, fl, fi, jc, pairs, param, x, st, stage_, depth + 1)
+        call = v if _plain_call(v) else None
+        meth = call.func.attr if call is not None and isinstance(call.func, ast.Attribute) else None
+        if stage == 'result':
+            if not (isinstance(v, ast.Call) and call_tail(v) == 'loads'):
+                raise _Lossy('unquote() returns %s, not the value the serializer decoded: the endpoint does not get back what it stored' % short(v, 40), v)
+            call = v
+            if argn(call, 's', 0) is None:
+                raise AnalysisError('%s: the arguments of %s are not followed' % (fi.qualname, short(v, 40)))
+            hooks = [k.arg for k in call.keywords if k.arg in LOADS_HOOKS]
+            for k in call.keywords:
+                if k.arg is None:
+                    opts = cx.fold(k.value)
+                    if not isinstance(opts, dict):
+                        raise AnalysisError('%s: the options %s of the serializer are not followed' % (fi.qualname, short(k.value, 40)))
+                    hooks += [x for x in opts if x in LOADS_HOOKS]
+            if hooks:
+                raise _Lossy('the serializer\'s loads is given %s: the values handed to the endpoint are rebuilt by the hook and are not the ones it stored '
+                             '(quote() has no counterpart)' % ', '.join(hooks), call)
+            rec(argn(call, 's', 0), 'text')
+        elif stage == 'text':
+            if isinstance(v, ast.Subscript):
+                raise _Lossy('unquote() decodes only a part of the payload (%s)' % short(v, 40), v)
+            if meth in STR_TO_STR and not call.args and not call.keywords:
+                rec(call.func.value, 'text')
+            elif meth == 'decode' and norm(call.func.value) not in ('codecs', 'bytes', 'base64', 'binascii'):
+                rec(call.func.value, 'bytes')
+            elif call is not None and norm(call.func) in ('str', 'codecs.decode', 'bytes.decode') and call.args:
+                rec(call.args[0], 'bytes')
+            elif call is not None and call_tail(call) in pairs.values() and call.args:
+                rec(call.args[0], 'value')         # the serializer is given bytes
+            else:
+                raise AnalysisError('%s: the text handed to the serializer (%s) is not followed' % (fi.qualname, short(v, 40)))
+        elif stage == 'bytes':
+            if isinstance(v, ast.Subscript):
+                raise _Lossy('unquote() decodes only a part of the payload (%s)' % short(v, 40), v)
+            if call is not None and call_tail(call) in pairs.values() and call.args:
+                rec(call.args[0], 'value')
+            else:
+                raise AnalysisError('%s: the bytes that are decoded (%s) are not the output of the decoder' % (fi.qualname, short(v, 40)))
+        elif stage == 'value':
+            if not _is_param(fl, v, st, param):
+                raise _Lossy('unquote() decodes %s, not the value it is given' % short(v, 40), v)
 
 
 def _raised_class(cx, fi, r):
